@@ -21,7 +21,7 @@ for i in ids:
         if st:
             print("refusing: /repo has uncommitted changes:\n" + st); sys.exit(2)
     else:
-        tree = "/tmp/seedrun"
+        tree = "/tmp/seedrun-%d" % os.getpid()
         subprocess.run(["git", "-C", REPO, "worktree", "remove", "--force", tree], capture_output=True)
         subprocess.run(["git", "-C", REPO, "worktree", "add", "-q", tree, "HEAD"], check=True)
     a = subprocess.run(["git", "-C", tree, "apply", os.path.join(d, "patch.diff")], capture_output=True, text=True)
